@@ -284,6 +284,14 @@ func mapLoopProblems(w *World, tm *Terms, fn *ssa.Function, fr *Frame, loop *Loo
 					if accumulatesInto(x) {
 						continue // v.f = v.f.Add(...): commutative accumulation through memory
 					}
+					if rt2, ok := x.Addr.(*ssa.Alloc); ok && appendsInto(x) {
+						// v = append(v, …): a slice collecting elements in iteration order through memory — fine if every
+						// use after the loop is behind a sort of it
+						for _, p := range unsortedAllocUses(w, fn, rt2, loop) {
+							bad = append(bad, "slice "+rt2.Comment+" collects elements in iteration order and is "+p)
+						}
+						continue
+					}
 					bad = append(bad, fmt.Sprintf("store to the outer variable %s at %s inside the loop", rt.Comment, w.instrPos(in)))
 				default:
 					// element store into a slice: the slice becomes order carrying
@@ -306,6 +314,85 @@ func mapLoopProblems(w *World, tm *Terms, fn *ssa.Function, fr *Frame, loop *Loo
 }
 
 // accumulatesInto: *addr = op(*addr, x) with a commutative, associative op.
+// appendsInto: *p = append(*p, …).
+func appendsInto(st *ssa.Store) bool {
+	c, ok := st.Val.(*ssa.Call)
+	if !ok {
+		return false
+	}
+	b, ok := c.Call.Value.(*ssa.Builtin)
+	if !ok || b.Name() != "append" || len(c.Call.Args) < 1 {
+		return false
+	}
+	u, ok := c.Call.Args[0].(*ssa.UnOp)
+	return ok && u.Op == token.MUL && sameValue(u.X, st.Addr)
+}
+
+// unsortedAllocUses: reads of the variable outside the loop that are not behind a sort of it. A sort is a call of one
+// of the sort functions on a load of the variable; a closure capturing the variable (the comparator of that sort)
+// is part of the sort.
+func unsortedAllocUses(w *World, fn *ssa.Function, al *ssa.Alloc, loop *Loop) []string {
+	refs := al.Referrers()
+	if refs == nil {
+		return nil
+	}
+	var sorts, others []ssa.Instruction
+	for _, u := range *refs {
+		if loop.Blocks[u.Block()] {
+			continue
+		}
+		switch x := u.(type) {
+		case *ssa.DebugRef, *ssa.MakeClosure:
+			continue
+		case *ssa.Store:
+			if x.Addr == ssa.Value(al) {
+				continue // (re)initialisation
+			}
+			others = append(others, u)
+		case *ssa.UnOp:
+			// a load: how is the loaded value used?
+			isSort := false
+			var viaIface func(v ssa.Value, depth int)
+			viaIface = func(v ssa.Value, depth int) {
+				lr := v.Referrers()
+				if lr == nil || depth > 2 {
+					return
+				}
+				for _, lu := range *lr {
+					if c, ok := lu.(ssa.CallInstruction); ok && sortCalls[callKey(c.Common())] && len(c.Common().Args) > 0 && c.Common().Args[0] == v {
+						isSort = true
+						sorts = append(sorts, lu)
+					}
+					// sort.Slice takes an `any`: the slice wrapped in an interface
+					if mi, ok := lu.(*ssa.MakeInterface); ok {
+						viaIface(mi, depth+1)
+					}
+				}
+			}
+			viaIface(x, 0)
+			if !isSort {
+				others = append(others, u)
+			}
+		default:
+			others = append(others, u)
+		}
+	}
+	var bad []string
+	for _, u := range others {
+		dominated := false
+		for _, s := range sorts {
+			if instrDominates(s, u) {
+				dominated = true
+			}
+		}
+		if !dominated {
+			bad = append(bad, fmt.Sprintf("used at %s without a dominating sort: the element order is the map's iteration order", w.instrPos(u)))
+		}
+	}
+	sort.Strings(bad)
+	return dedupe(bad)
+}
+
 func accumulatesInto(st *ssa.Store) bool {
 	isSelfLoad := func(v ssa.Value) bool {
 		u, ok := v.(*ssa.UnOp)
